@@ -1193,6 +1193,14 @@ class PDSLabelEncoder(ODLEncoder):
         else:
             return s
 
+    def format(self, s: str, level: int = 0) -> str:
+        """Extends the parent function: a tab is written as *tab_replace*
+        blanks, so that is also what it counts for when a line is wrapped.
+        """
+        if self.tab_replace > 0:
+            s = s.replace("\t", (" " * self.tab_replace))
+        return super().format(s, level)
+
     def is_PDSgroup(self, group: abc.Mapping) -> bool:
         """Returns true if the dict-like *group* qualifies as a PDS Group,
         false otherwise.
